@@ -224,6 +224,29 @@ EULER_PINS = {   # statements of _quaternion_to_euler that the R model (Model/Eu
 }
 
 
+ALIGN_PINS = [   # the statements of the one-pair / infinite-weight branch of _align_vectors that Proofs/AlignProofs.v is about, in this order
+    'a_primary, b_primary = (F.normalize(a_primary, dim=0), F.normalize(b_primary, dim=0))',
+    'cross = torch.linalg.cross(b_primary, a_primary, dim=0)',
+    'angle = torch.atan2(torch.norm(cross), torch.dot(a_primary, b_primary))',
+    'if torch.norm(cross) < 1e-06 and torch.dot(a_primary, b_primary) < 0:',
+    'i = int(torch.argmin(a_primary.abs()))',
+    'cross = torch.zeros_like(a_primary)',
+    'cross[i - 1], cross[i - 2] = (a_primary[i - 2], -a_primary[i - 1])',
+    'rot_primary = _axisangle_to_matrix(cross, angle)',
+]
+
+
+def check_align(fn):
+    """C12_align_single_pair / C12_align_antiparallel speak about these statements: they have to be there, in this order"""
+    lines = [ln.strip() for ln in ast.unparse(fn).splitlines()]
+    pos = -1
+    for want in ALIGN_PINS:
+        try:
+            pos = lines.index(want, pos + 1)
+        except ValueError:
+            raise Unsupported(f'_align_vectors: statement `{want}` not found (in order)') from None
+
+
 def translate_euler(fn):
     """a, b, c, d of both branches of `if symmetric:` as ring expressions of (cw, cq, cr, cs, sg); the angle formulas are pinned textually"""
     first = {}
@@ -288,6 +311,14 @@ def translate():
   Lemma gen_quaternion_to_euler_ok : forall cw cq cr cs sg,
     gen_euler_abcd_sym cw cq cr cs sg = abcd_sym R cw cq cr cs sg /\\ gen_euler_abcd_asym cw cq cr cs sg = abcd_asym R cw cq cr cs sg.
   Proof. intros. unfold gen_euler_abcd_sym, gen_euler_abcd_asym, abcd_sym, abcd_asym. split; pair_split; ring. Qed.''')
+        avail[name] = (True, '')
+    except (Unsupported, KeyError, AttributeError, TypeError) as e:
+        parts.append(f'  (* translator failed closed for {name}: {str(e)[:300]} *)\n  Definition gen_available{name} := false.')
+        avail[name] = (False, str(e)[:300])
+    name = '_align_vectors'
+    try:
+        check_align(fns[name])
+        parts.append(f'  Definition gen_available{name} := true.   (* single-pair / infinite-weight branch pinned: see ALIGN_PINS *)')
         avail[name] = (True, '')
     except (Unsupported, KeyError, AttributeError, TypeError) as e:
         parts.append(f'  (* translator failed closed for {name}: {str(e)[:300]} *)\n  Definition gen_available{name} := false.')
